@@ -851,7 +851,8 @@ class Gen:
                     if rt.kind == 'ref' and not nullable:
                         fs = self.m.own_fields(self.m.lookup(rt.ns, rt.name))
                         if fs:
-                            out.append(':field:`%s.%s`' % (d.name, self.rnd.choice(fs).name))
+                            # (several copies: one candidate among dozens is rarely picked)
+                            out.extend([':field:`%s.%s`' % (d.name, self.rnd.choice(fs).name)] * 5)
                             self.m.feature('doc_field_ref_via_alias')
                 elif d.kind == 'route':
                     v = '' if d.version == 1 else ':%d' % d.version
